@@ -44,14 +44,10 @@ def run(tier):
 
     suspects = [i for i, v in enumerate(verdicts) if v["c07"].get("status") == "violation"
                 and C.f4_signature(v.get("res") or {})]
-    repaired = {}
-    for sig, kind in (("F4", "kernel"), ("F4b", "one")):
-        idx = [i for i in suspects if C.f4_signature(verdicts[i]["res"]) == sig]
-        if idx:
-            o2 = C.run_cases([cases[i] for i in idx], True, k_extra, caps, timeout, repair=kind)
-            v2 = C.judge([cases[i] for i in idx], o2, True)
-            for i, w in zip(idx, v2):
-                repaired[i] = w
+    repaired = C.attribution_runs(
+        cases, verdicts, suspects, True, k_extra, caps, timeout,
+        clean=lambda w: w["c07"].get("status") in ("validated", "validated-sympy-membership")) if suspects else {}
+    latv = C.lattice_verdicts({i: verdicts[i]["res"] for i in suspects})
 
     validated = 0
     for ci, (case, v) in enumerate(zip(cases, verdicts)):
@@ -84,12 +80,14 @@ def run(tier):
                        limit=5)
         if c["status"] == "violation":
             w = c["witness"]
-            r2 = repaired.get(ci)
+            r2 = repaired.get(ci) or {}
             rec = {"case": case["id"], "bases_q": res.get("bases_q"), "lattice": res.get("lattice"),
-                   "signature": C.f4_signature(res), "witness": w,
-                   "repaired_clean": bool(r2 and r2["status"] == "ok"
-                                          and r2["c07"].get("status") in ("validated", "validated-sympy-membership")),
-                   "repaired_basis": ((r2 or {}).get("res") or {}).get("basis_str")}
+                   "signature": C.f4_signature(res), "witness": w, "need": "not-a-basis",
+                   "lattice_verdict": latv.get(ci), "repair_kind": r2.get("kind"),
+                   "repaired_clean": bool(r2.get("clean")),
+                   "repaired_basis": ((r2.get("verdict") or {}).get("res") or {}).get("basis_str")}
+            if r2 and not r2.get("clean") and (r2.get("verdict") or {}).get("status") == "timeout":
+                chk.count("attribution-repair-timeout")
             fid = attribute(PROP, rec)
             if fid:
                 chk.count("known:" + fid[0])
